@@ -194,12 +194,16 @@ def mutants(prog, rng):
             c = n[1]
             if isinstance(c, int):
                 yield "loop-count", put(prog, path, ("loop", c + 1, n[2]))
+                if c != 0:
+                    yield "loop-count-zero", put(prog, path, ("loop", 0, n[2]))
             b = n[2]
             other = "parallel_block" if b[0] == "sequential_block" else "sequential_block"
             yield "block-kind", put(prog, path, ("loop", c, (other,) + b[1:]))
         elif k == "subcircuit_block":
             c = n[1]
             yield "subcircuit-count", put(prog, path, (k, 2 if c in ("", 1) else (c + 1 if isinstance(c, int) else 7)) + n[2:])
+            if c != 0:
+                yield "subcircuit-count-zero", put(prog, path, (k, 0) + n[2:])
             if len(path) == 1:
                 yield "subcircuit-presence", put(prog, path, ("sequential_block",) + n[2:])
         elif k == "sequential_block" and len(path) == 1:
@@ -268,7 +272,7 @@ def shard(ctx):
     monitors.install_contracts()
     wrap_eq()
     rng = ctx.rng
-    n = ctx.scale(500, 20000)
+    n = ctx.scale(3000, 20000)
     prev = None
     i = 0
     while i < n and not rec.expired():
